@@ -324,8 +324,14 @@ func (g *lgen) asyncSnippet() string {
 		sb.WriteString(fmt.Sprintf("class %s { async bm(z) { await null; return %s; } static async sbm() { return \"sbm\"; } get v() { return \"base-v\"; } }\n", b, g.p("\"bm\", z, this.tag")))
 		sb.WriteString(fmt.Sprintf("class %s extends %s { tag = \"tg\"; #q = 1; async m(z) { var r1 = await super.bm(z); var r2 = await (async () => [super.v, await super.bm(this.#q++), this.#q])(); return [r1, r2, arguments.length]; } static async sm() { return [await super.sbm(), this === %s]; } fld = async () => [this.tag, await this.m(5)]; async *ag() { yield super.v; yield* [this.#q]; } am() { return (async () => [this.tag, super.v])(); } *sg() { yield* [1, this.#q]; var r = yield* (function*() { var x = yield 2; return x * 2; })(); yield r; } constructor(a) { super(a); this.viaCtor = this.tag; } }\n", c, b, c))
 		sb.WriteString("var ao = new " + c + "();\n" + g.p("await ao.m(1, 2)") + ";\n" + g.p("await "+c+".sm()") + ";\n" + g.p("await ao.fld.call(null)") + ";\nfor await (var q of ao.ag()) " + g.p("q") + ";\n")
-		// neighbours of the findings F18 (async arrow with super but no this), F19 (yield* of an object that
-		// also has Symbol.asyncIterator in a sync generator) and F21 (return super()), which are replayed
+		// neighbour of the finding F18 (async arrow with super but no this), which is replayed; the shapes of
+		// the repaired F19 (yield* of an object that also has Symbol.asyncIterator in a sync generator) and
+		// F21 (return super() with fields) are generated
+		rc := g.fresh("RS")
+		sb.WriteString(fmt.Sprintf("class %s extends %s { fx = %s; #pf = 2; constructor(c) { if (c) return super(c); return super(), undefined; } pf() { return this.#pf; } }\n", rc, b, g.p("\"init-fx\"")))
+		sb.WriteString(g.p("new "+rc+"(1).fx, new "+rc+"(0).fx, new "+rc+"(1).pf()") + ";\n")
+		sb.WriteString("var both = {[Symbol.iterator]() { " + g.p("\"sync-iter\"") + "; return [3][Symbol.iterator](); }, [Symbol.asyncIterator]() { " + g.p("\"async-iter\"") + "; return (async function*() { yield 4; })(); }};\n")
+		sb.WriteString("function* sgb() { yield* both; }\n" + g.p("Array.from(sgb())") + ";\nasync function* agb() { yield* both; }\nfor await (var bq of agb()) " + g.p("bq") + ";\n")
 		sb.WriteString(g.p("await ao.am(), ao.viaCtor") + ";\nvar sgi = ao.sg();\n" + g.p("sgi.next(), sgi.next(), sgi.next(), sgi.next(21), sgi.next()") + ";\n")
 	case 6: // await in expression positions with lowered operators
 		sb.WriteString("var ob = {k: null, n: 2, get g() { " + g.p("\"get-g\"") + "; return null; }, set g(v) { " + g.p("\"set-g\", v") + "; }, f(z) { return this === ob ? z : \"bad-this\"; }};\n")
